@@ -72,7 +72,7 @@ def expr_jobs(ctx, which, solver="sat"):
                     continue
                 jobs.append(ejob(ctx, "E.h.%s%s%s" % (nm, suf, ".pretty" if pr else ""), SRC.get(nm, "e_expr.c"), "h_" + nm,
                                  ["c.c:" + fn] + COMMON + EXTRA_FUNCS.get(nm, []), defines=["PRETTY=%d" % pr, "INDENT=%d" % (2 if pr else 0)] + vdefs,
-                                 flags=["--unwind", "24", "--unwinding-assertions"], solver=solver, bounded=BOUNDED.get(nm),
+                                 flags=["--unwind", "24", "--unwinding-assertions"], solver=solver, bounded=BOUNDED.get(nm), timeout=(900 if ctx.tier == "quick" else 1800),
                                  info=dict(layer="E", note="symbolic stack height h <= 2^24, symbolic operand and context types; "
                                            "array.c growth enters through its contract (job A.ensure_capacity)")))
     jobs += grow_jobs(ctx, [4])
@@ -102,7 +102,7 @@ def block_jobs(ctx):
                     name = "S.%s%s%s%s" % (nm, ".typed" if typed else ".void", ".dead" if dead else "", ".pretty" if pr else "")
                     j = ejob(ctx, name, "e_block.c", "h_block", ["c.c:wasmCWrite%sExpr" % {0: "Block", 1: "Loop", 2: "If", 3: "If"}[k], "labelstack.h:wasmLabelStackPush", "labelstack.h:wasmLabelStackPop", "c.c:wasmCWriteLabel"],
                              defines=["BL_KIND=%d" % k, "BL_TYPED=%d" % typed, "BL_DEAD=%d" % dead, "PRETTY=%d" % pr, "INDENT=%d" % (1 if pr else 0)],
-                             flags=["--unwind", "12", "--unwinding-assertions"], replace=[("wasmCWriteFunctionCode", "c_inner")], replay=None,
+                             flags=["--unwind", "12", "--unwinding-assertions"], replace=[("wasmCWriteFunctionCode", "c_inner")], replay=None, timeout=(900 if ctx.tier == "quick" else 1800),
                              info=dict(layer="S", note="symbolic stack height and label-stack length; the enclosed code enters through the induction hypothesis (contract c_inner in harness/e_block.c)"))
                     jobs.append(j)
     return jobs
